@@ -144,6 +144,68 @@ def task_schedule(task):
     return res
 
 
+def sponge_chain(L, task, name, calls, nblk, padded, msg, nbits, rate, prefix, used):
+    """lock-step of one chain of permutation calls against the reference sponge, then squeeze (and completeness for single-hash circuits)"""
+    obls = []
+    T, F = z3.BoolVal(True), z3.BoolVal(False)
+    if len(calls) != nblk:
+        obls.append({'name': name + ': number of permutation calls == number of padded blocks (%d)' % nblk, 'verdict': 'sat', 'expect': 'unsat', 'secs': 0.0,
+                            'cex': {'calls': len(calls), 'blocks': nblk}})
+        return obls
+    state = [[[F] * 64 for _ in range(5)] for _ in range(5)]      # state[x][y][k]
+    tot, worst = 0.0, 'unsat'
+    cexm = None
+    for b, (rec, ins, outs) in enumerate(calls):
+        f = {x['name']: x for x in rec['fields']}
+        a0 = f['A'].get('off', 0)
+        okp = f['Rounds']['value'] == 24 and f['RotationOffsets']['value'] == keccak_ref.ROT_XY
+        r0 = f['RoundConstants'].get('off', 0)
+        rcs = [x.get(ONE, 0) if set(x) <= {ONE} else None for x in ins[r0:r0 + 1536]]
+        okp = okp and rcs == [(rc >> i) & 1 for rc in keccak_ref.RC for i in range(64)]
+        if not okp:
+            obls.append({'name': name + ': permutation call %d has the standard parameters' % b, 'verdict': 'sat', 'expect': 'unsat', 'secs': 0.0})
+            return obls
+        blk = padded[b * rate:(b + 1) * rate]
+        for i in range(rate // 64):
+            x, y = i % 5, i // 5
+            state[x][y] = [z3.Xor(state[x][y][k], blk[64 * i + k]) for k in range(64)]
+        gin = [L.zbool(ins[a0 + (x * 5 + y) * 64 + k], used) for x in range(5) for y in range(5) for k in range(64)]
+        rin = [state[x][y][k] for x in range(5) for y in range(5) for k in range(64)]
+        q = z3.Or(*[gi != ri for gi, ri in zip(gin, rin)])
+        r, secs, s = solve(L.closure(used) + [q], task.get('timeout', 120))
+        tot += secs
+        if r != 'unsat':
+            worst = r
+            if r == 'sat':
+                m = s.model()
+                cexm = {'msg_bits': [1 if z3.is_true(m.eval(x, model_completion=True)) else 0 for x in msg], 'block': b}
+            break
+        # congruence: same input => same output; both sides continue from the gadget's output bits
+        ob = [L.zbool({a: 1}, used) for a in outs]
+        state = [[[ob[(x * 5 + y) * 64 + k] for k in range(64)] for y in range(5)] for x in range(5)]
+    o = {'name': name + ': state entering each of the %d permutation calls == reference sponge state (padding, domain, lane order x+5y)' % nblk, 'verdict': worst, 'expect': 'unsat', 'secs': tot, 'cex': cexm}
+    obls.append(o)
+    if worst == 'unsat':
+        # squeeze: harness equalities Out[i] == digest bit i
+        les = [a for a in L.assertions if a['kind'] == 'le']
+        dig = [state[i % 5][i // 5][k] for i in range(4) for k in range(64)]
+        outw = [L.zint(L.val[1 + nbits + (256 if prefix is not None else 0) + i], used) for i in range(256)]
+        asserts = [L.zassertion(a, used) for a in les]
+        q = z3.Or(*[(outw[i] == 1) != dig[i] for i in range(256)] + [z3.Not(z3.Or(outw[i] == 0, outw[i] == 1)) for i in range(256)])
+        r, secs, s = solve(L.closure(used) + asserts + [q], task.get('timeout', 120))
+        obls.append({'name': name + ': the 256 output bits are lanes (0,0),(1,0),(2,0),(3,0) of the final state, LSB first', 'verdict': r, 'expect': 'unsat', 'secs': secs,
+                            'cex': {'msg_bits': [1 if z3.is_true(s.model().eval(x, model_completion=True)) else 0 for x in msg]} if r == 'sat' else None})
+        if prefix is not None:
+            return obls
+        # completeness: with Out = those bits every constraint holds (no hidden assertion can fail)
+        q2 = z3.And(*[(outw[i] == 1) == dig[i] for i in range(256)] + [z3.Or(outw[i] == 0, outw[i] == 1) for i in range(256)])
+        allA = [L.zassertion(a, used) for a in L.assertions]
+        r, secs, s = solve(L.closure(used) + [q2, z3.Not(z3.And(*allA))], task.get('timeout', 120))
+        obls.append({'name': name + ': every boolean message with the reference digest satisfies all constraints', 'verdict': r, 'expect': 'unsat', 'secs': secs,
+                            'cex': {'msg_bits': [1 if z3.is_true(s.model().eval(x, model_completion=True)) else 0 for x in msg]} if r == 'sat' else None})
+    return obls
+
+
 def task_sponge(task):
     """NewKeccak256 / NewSHA3_256 on n bytes with KeccakF summarised: lock-step against the reference pad10*1 sponge"""
     n, sha3 = task['n'], task['sha3']
@@ -170,67 +232,44 @@ def task_sponge(task):
             padded.append(F)
         padded[-1] = T if z3.is_false(padded[-1]) else (F if z3.is_true(padded[-1]) else z3.Not(padded[-1]))   # final bit of pad10*1 (0x80)
         nblk = len(padded) // rate
-        calls = [c for c in L.sumcalls if c[0]['gadget'] == 'keccak.KeccakF']
-        skip = 0
-        if prefix is not None:
-            skip = (8 * prefix + 8) // rate + 1
-            if len(calls) == skip + nblk:
-                calls = calls[skip:]
-        if len(calls) != nblk:
-            res['obls'].append({'name': name + ': number of permutation calls == number of padded blocks (%d)' % nblk, 'verdict': 'sat', 'expect': 'unsat', 'secs': 0.0,
-                                'cex': {'calls': len(calls), 'blocks': nblk}})
-            return res
-        state = [[[F] * 64 for _ in range(5)] for _ in range(5)]      # state[x][y][k]
-        tot, worst = 0.0, 'unsat'
-        cexm = None
-        for b, (rec, ins, outs) in enumerate(calls):
-            f = {x['name']: x for x in rec['fields']}
-            a0 = f['A'].get('off', 0)
-            okp = f['Rounds']['value'] == 24 and f['RotationOffsets']['value'] == keccak_ref.ROT_XY
-            r0 = f['RoundConstants'].get('off', 0)
-            rcs = [x.get(ONE, 0) if set(x) <= {ONE} else None for x in ins[r0:r0 + 1536]]
-            okp = okp and rcs == [(rc >> i) & 1 for rc in keccak_ref.RC for i in range(64)]
-            if not okp:
-                res['obls'].append({'name': name + ': permutation call %d has the standard parameters' % b, 'verdict': 'sat', 'expect': 'unsat', 'secs': 0.0})
-                return res
-            blk = padded[b * rate:(b + 1) * rate]
-            for i in range(rate // 64):
-                x, y = i % 5, i // 5
-                state[x][y] = [z3.Xor(state[x][y][k], blk[64 * i + k]) for k in range(64)]
-            gin = [L.zbool(ins[a0 + (x * 5 + y) * 64 + k], used) for x in range(5) for y in range(5) for k in range(64)]
-            rin = [state[x][y][k] for x in range(5) for y in range(5) for k in range(64)]
-            q = z3.Or(*[gi != ri for gi, ri in zip(gin, rin)])
-            r, secs, s = solve(L.closure(used) + [q], task.get('timeout', 120))
-            tot += secs
-            if r != 'unsat':
-                worst = r
-                if r == 'sat':
-                    m = s.model()
-                    cexm = {'msg_bits': [1 if z3.is_true(m.eval(x, model_completion=True)) else 0 for x in msg], 'block': b}
+        allcalls = [c for c in L.sumcalls if c[0]['gadget'] == 'keccak.KeccakF']
+        if prefix is None:
+            cands = [allcalls]
+        else:
+            # two hashes in one circuit: the permutation calls form two chains (a call whose inputs mention the outputs of another
+            # follows it); the recorded order of the calls is not the order of the hashes. Every chain of the right length is tried as
+            # "the hash of the whole buffer"; the squeeze obligation ties it to the second output.
+            owner = {}
+            for i, (_, _, outs_) in enumerate(allcalls):
+                for a in outs_:
+                    owner[a] = i
+            pred = {}
+            for j, (_, ins_, _) in enumerate(allcalls):
+                ps = set(owner[a] for le in ins_ for a in le if a in owner)
+                ps.discard(j)
+                if len(ps) > 1:
+                    raise Inconclusive('a permutation call depends on the outputs of %d other calls' % len(ps))
+                if ps:
+                    pred[j] = ps.pop()
+            succ = {v: k for k, v in pred.items()}
+            chains = []
+            for r0 in [j for j in range(len(allcalls)) if j not in pred]:
+                ch, cur = [], r0
+                while cur is not None:
+                    ch.append(allcalls[cur])
+                    cur = succ.get(cur)
+                chains.append(ch)
+            cands = [ch for ch in chains if len(ch) == nblk]
+            if not cands:
+                cands = [[]]
+        best = None
+        for calls in cands:
+            sub = sponge_chain(L, task, name, calls, nblk, padded, msg, nbits, rate, prefix, used)
+            if best is None or all(o['verdict'] == o['expect'] for o in sub):
+                best = sub
+            if all(o['verdict'] == o['expect'] for o in sub):
                 break
-            # congruence: same input => same output; both sides continue from the gadget's output bits
-            ob = [L.zbool({a: 1}, used) for a in outs]
-            state = [[[ob[(x * 5 + y) * 64 + k] for k in range(64)] for y in range(5)] for x in range(5)]
-        o = {'name': name + ': state entering each of the %d permutation calls == reference sponge state (padding, domain, lane order x+5y)' % nblk, 'verdict': worst, 'expect': 'unsat', 'secs': tot, 'cex': cexm}
-        res['obls'].append(o)
-        if worst == 'unsat':
-            # squeeze: harness equalities Out[i] == digest bit i
-            les = [a for a in L.assertions if a['kind'] == 'le']
-            dig = [state[i % 5][i // 5][k] for i in range(4) for k in range(64)]
-            outw = [L.zint(L.val[1 + nbits + (256 if prefix is not None else 0) + i], used) for i in range(256)]
-            asserts = [L.zassertion(a, used) for a in les]
-            q = z3.Or(*[(outw[i] == 1) != dig[i] for i in range(256)] + [z3.Not(z3.Or(outw[i] == 0, outw[i] == 1)) for i in range(256)])
-            r, secs, s = solve(L.closure(used) + asserts + [q], task.get('timeout', 120))
-            res['obls'].append({'name': name + ': the 256 output bits are lanes (0,0),(1,0),(2,0),(3,0) of the final state, LSB first', 'verdict': r, 'expect': 'unsat', 'secs': secs,
-                                'cex': {'msg_bits': [1 if z3.is_true(s.model().eval(x, model_completion=True)) else 0 for x in msg]} if r == 'sat' else None})
-            if prefix is not None:
-                return res
-            # completeness: with Out = those bits every constraint holds (no hidden assertion can fail)
-            q2 = z3.And(*[(outw[i] == 1) == dig[i] for i in range(256)] + [z3.Or(outw[i] == 0, outw[i] == 1) for i in range(256)])
-            allA = [L.zassertion(a, used) for a in L.assertions]
-            r, secs, s = solve(L.closure(used) + [q2, z3.Not(z3.And(*allA))], task.get('timeout', 120))
-            res['obls'].append({'name': name + ': every boolean message with the reference digest satisfies all constraints', 'verdict': r, 'expect': 'unsat', 'secs': secs,
-                                'cex': {'msg_bits': [1 if z3.is_true(s.model().eval(x, model_completion=True)) else 0 for x in msg]} if r == 'sat' else None})
+        res['obls'] += best
     except Inconclusive as e:
         res['error'] = 'inconclusive: %s' % e
     return res
